@@ -51,7 +51,10 @@ theorem er_eq_nil_iff (l : TLine) : er l = [] ↔ l.noContent = true := by
 theorem er_replicate_spc (n : Nat) (t : Tag) : er (List.replicate n (spc t)) = List.replicate n spaceCh := by
   induction n with
   | zero => rfl
-  | succ n ih => rw [List.replicate_succ, List.replicate_succ]; simp [spc, ih]
+  | succ n ih =>
+    rw [List.replicate_succ, List.replicate_succ]
+    show er (Elt.cell ⟨spaceCh, t⟩ :: List.replicate n (spc t)) = spaceCh :: List.replicate n spaceCh
+    rw [er_cell, ih]
 
 /-! ## a relation lifter for `Except` -/
 
@@ -144,5 +147,148 @@ theorem fill_prefix_then (W : Nat) (g : G) (taken : List Ch) (c : Ch) (more : Li
     by_cases hc : c.w ≤ W
     · simp [hc]
     · simp [hc]
+
+/-! ## the piece-based hard wrap refines character-by-character filling -/
+
+theorem Core_pushCells (b : WB) (g : G) (cs : List Cell) (h : Core b g) (hfit : lwc g.cur + cellsW cs ≤ b.width) :
+    Core (b.pushCells cs) { g with cur := g.cur ++ erC cs } :=
+  ⟨h.text, by simp [WB.pushCells, h.line, er_cells], by simp [WB.pushCells, h.linelen, cellsW_eq], h.noov, h.nopad,
+   by simp [cellsW_eq] at hfit ⊢; exact hfit⟩
+
+theorem Core_flush (b : WB) (g : G) (h : Core b g) :
+    Core b.forceFlush { done := g.done ++ [g.cur], cur := [] } := by
+  have hp := h.nopad
+  refine ⟨?_, rfl, rfl, h.noov, hp, by simp⟩
+  simp [WB.forceFlush, hp, h.text, h.line]
+
+/-- what one iteration of the reference does with a character that does not fit on a fresh line state -/
+theorem fill_fresh (W : Nat) (done : List (List Ch)) (c : Ch) (more : List Ch) :
+    ({ done := done, cur := [] } : G).fill W (c :: more) =
+      if c.w ≤ W then ({ done := done, cur := [c] } : G).fill W more else .error .tooNarrow := by
+  simp only [G.fill, G.fillCh, lwc_nil, Nat.zero_add, List.nil_append]
+  by_cases hc : c.w ≤ W <;> simp [hc]
+
+/-- result relation of the piece loop -/
+def LoopRel (W w : Nat) (b : WB) (rest : List Cell) (moved : Bool)
+    (r : WB × Nat × Nat × List Cell × Bool) (g' : G) : Prop :=
+  ∃ gm : G, Core r.1 gm ∧ r.2.1 = W - r.1.linelen ∧ Frame b r.1 ∧ r.2.2.1 + cellsW r.2.2.2.1 = w ∧
+    lwc gm.cur + cellsW r.2.2.2.1 ≤ W ∧ g' = { gm with cur := gm.cur ++ erC r.2.2.2.1 } ∧
+    (r.2.2.2.2 = false → moved = false ∧ r.2.2.2.1 = rest)
+
+theorem pieceLoop_refines (w : Nat) : ∀ (fuel : Nat) (b : WB) (g : G) (ll wpos : Nat) (rest : List Cell) (moved : Bool),
+    Core b g → ll = b.width - b.linelen → wpos + cellsW rest = w →
+    rest.length + (if 0 < b.linelen then 1 else 0) < fuel →
+    ExRel (LoopRel b.width w b rest moved) (b.pieceLoop w fuel ll wpos rest moved) (g.fill b.width (erC rest)) := by
+  intro fuel
+  induction fuel with
+  | zero => intro b g ll wpos rest moved _ _ _ hf; omega
+  | succ fuel ih =>
+    intro b g ll wpos rest moved hc hll hw hf
+    have hlin := hc.linelen
+    have hfit0 := hc.fit
+    simp only [WB.pieceLoop]
+    by_cases hgt : w - wpos > ll
+    · simp only [hgt, if_true]
+      obtain ⟨hs1, hs2, hs3, hs4, hs5⟩ := scanFit_spec rest ll wpos
+      generalize hr : scanFit ll wpos rest = r at hs1 hs2 hs3 hs4 hs5
+      obtain ⟨taken, rest1, ll1, wpos1⟩ := r
+      simp only at hs1 hs2 hs3 hs4 hs5 ⊢
+      have hrestw : cellsW rest = cellsW taken + cellsW rest1 := by rw [← hs1]; simp
+      cases rest1 with
+      | nil => exfalso; simp at hrestw; omega
+      | cons c more =>
+        simp only
+        have hnofit := hs5 c more rfl
+        have hrw : cellsW rest = cellsW taken + c.ch.w + cellsW more := by rw [hrestw]; simp; omega
+        -- the reference on `taken ++ c :: more`
+        have hgfit : lwc g.cur + lwc (erC taken) ≤ b.width := by rw [← cellsW_eq]; omega
+        have hgno : ¬ lwc g.cur + lwc (erC taken) + c.ch.w ≤ b.width := by rw [← cellsW_eq]; omega
+        have hspec := fill_prefix_then b.width g (erC taken) c.ch (erC more) hgfit hgno
+        have hrest_er : erC rest = erC taken ++ c.ch :: erC more := by rw [← hs1]; simp
+        rw [hrest_er, hspec]
+        have hlwline : lw b.line = lwc g.cur := by rw [lw_eq, hc.line]
+        by_cases hnp : (taken.isEmpty && lw b.line = 0) = true
+        · -- nothing fits on an empty line: too narrow on both sides
+          have htk : taken = [] := by simp only [Bool.and_eq_true, List.isEmpty_iff] at hnp; exact hnp.1
+          have hl0 : lwc g.cur = 0 := by simp only [Bool.and_eq_true, decide_eq_true_eq] at hnp; rw [← hlwline]; exact hnp.2
+          simp only [hnp, if_true, hc.noov, Bool.false_eq_true, if_false]
+          simp [htk, hl0]
+        · simp only [hnp, Bool.false_eq_true, if_false]
+          -- the machine pushes what fits and starts a new line
+          have hcore1 : Core (b.pushCells taken) { g with cur := g.cur ++ erC taken } :=
+            Core_pushCells b g taken hc (by rw [← hlin] at *; omega)
+          have hcore2 := Core_flush _ _ hcore1
+          have hwid : (b.pushCells taken).forceFlush.width = b.width := rfl
+          have hlen2 : (b.pushCells taken).forceFlush.linelen = 0 := rfl
+          have hih := ih (b.pushCells taken).forceFlush { done := g.done ++ [g.cur ++ erC taken], cur := [] }
+            b.width wpos1 (c :: more) (moved || !taken.isEmpty) hcore2 (by rw [hwid, hlen2]; simp)
+            (by simp only [cellsW_cons]; rw [hs4]; omega)
+            (by
+              rw [hlen2]; simp only [Nat.lt_irrefl, if_false, Nat.add_zero, List.length_cons]
+              have hlen : rest.length = taken.length + (more.length + 1) := by rw [← hs1]; simp
+              by_cases ht : taken = []
+              · -- then the line was non-empty
+                subst ht
+                have : 0 < b.linelen := by
+                  simp only [List.isEmpty_nil, Bool.true_and, decide_eq_true_eq] at hnp
+                  rw [hlin, ← hlwline]; omega
+                simp only [this, if_true] at hf
+                simp at hlen; omega
+              · have : 0 < taken.length := List.length_pos_iff.mpr ht
+                omega)
+          rw [hwid] at hih
+          simp only [erC_cons] at hih
+          rw [fill_fresh] at hih
+          -- the reference: same continuation unless the zero-width corner applies
+          by_cases h0 : lwc g.cur + lwc (erC taken) = 0
+          · -- zero-width prefix on an empty line and a character wider than the line: both too narrow
+            simp only [h0, if_true]
+            have hcw : ¬ c.ch.w ≤ b.width := by
+              have : cellsW taken = 0 := by rw [cellsW_eq]; omega
+              have : b.linelen = 0 := by omega
+              omega
+            simp only [hcw, if_false] at hih
+            revert hih
+            cases (b.pushCells taken).forceFlush.pieceLoop w fuel b.width wpos1 (c :: more) (moved || !taken.isEmpty) with
+            | error e => simp
+            | ok r => simp
+          · simp only [h0, if_false]
+            revert hih
+            cases hrec : (b.pushCells taken).forceFlush.pieceLoop w fuel b.width wpos1 (c :: more) (moved || !taken.isEmpty) with
+            | error e =>
+              intro hih
+              by_cases hcw : c.ch.w ≤ b.width
+              · simp only [hcw, if_true] at hih ⊢
+                revert hih
+                cases ({ done := g.done ++ [g.cur ++ erC taken], cur := [c.ch] } : G).fill b.width (erC more) <;> simp
+              · simp only [hcw, if_false] at hih ⊢
+                simpa using hih
+            | ok r =>
+              intro hih
+              by_cases hcw : c.ch.w ≤ b.width
+              · simp only [hcw, if_true] at hih ⊢
+                revert hih
+                cases ({ done := g.done ++ [g.cur ++ erC taken], cur := [c.ch] } : G).fill b.width (erC more) with
+                | error e => simp
+                | ok g' =>
+                  simp only [ExRel_ok_ok]
+                  rintro ⟨gm, k1, k2, k3, k4, k5, k6, k7⟩
+                  refine ⟨gm, k1, k2, ?_, k4, k5, k6, ?_⟩
+                  · exact Frame.trans (by simp [Frame, WB.pushCells, WB.forceFlush]) k3
+                  · intro hm
+                    obtain ⟨hm1, hm2⟩ := k7 hm
+                    simp only [Bool.or_eq_false_iff, Bool.not_eq_false'] at hm1
+                    have htk : taken = [] := by simpa using hm1.2
+                    subst htk
+                    simp at hs1
+                    exact ⟨hm1.1, by rw [hm2, hs1]⟩
+              · simp only [hcw, if_false] at hih
+                simp at hih
+    · -- the rest fits: the loop ends
+      simp only [hgt, if_false]
+      have hfits : lwc g.cur + lwc (erC rest) ≤ b.width := by rw [← cellsW_eq]; omega
+      rw [fill_fits b.width (erC rest) g hfits]
+      simp only [ExRel_ok_ok]
+      exact ⟨g, hc, hll, Frame.refl b, hw, by rw [cellsW_eq]; exact hfits, rfl, fun _ => ⟨by assumption, rfl⟩⟩
 
 end H2T
